@@ -107,8 +107,12 @@ def model_line(c, o):
     elif k in ("W", "Z"): par = [str(o["rows"]), fl(o["mat"]), fl(o["off"])]
     elif k == "P":
         par = [str(o["vcols"]), fl(o["ev"]), fl(o["evec"])]
-        # the small-sample runs of the model are expensive (exact rationals of a few thousand bits): first two members of a group only
-        if "on" in o and c["n"] >= 2 and (c["d"] <= c["n"] or c.get("li", 0) < 2): par += [str(o["on"]), fl(o["oD"]), fl(o["oU"]), binq(EPSM), binq(CUT)]
+        # the small-sample runs of the model are expensive (exact rationals; the bit length is squared by every Gram-Schmidt step, so every
+        # completed direction multiplies it by 2^(2i)): first two members of a group and at most one completed direction (= zero
+        # eigenvalue), two only for three points; the other inputs are covered by the monitors (orthonormality, eigen-equation)
+        ncompl = (c["n"] - frank(fcov(c["rows"]))) if c["d"] > c["n"] >= 2 else 0
+        cheap = c["d"] <= c["n"] or (c.get("li", 0) < 2 and (ncompl <= 1 or (ncompl == 2 and c["n"] == 3 and c["d"] <= 4 and c.get("li", 0) == 0)))
+        if "on" in o and c["n"] >= 2 and cheap: par += [str(o["on"]), fl(o["oD"]), fl(o["oU"]), binq(EPSM), binq(CUT)]
     elif k in ("D", "DW"): par = [fl(o["mat"])]
     return " | ".join(out) + (" || " + " | ".join(par) if par else "")
 
@@ -568,8 +572,9 @@ def compare(c, o, mo):
             for i in range(vc):
                 if small and md["mev"][i] == 0:
                     # completion of the basis: the start vector is the arg-max of the residuals; a tie decided by rounding is not a difference
-                    res = sorted((1.0 - sum(V[j][k] ** 2 for k in range(i)) for j in range(d)), reverse=True)
-                    if len(res) > 1 and res[0] - res[1] < 1e-9: tied = True
+                    # (bitwise equal residuals are no rounding matter: the code and the model both take the first one)
+                    res = sorted((1.0 - sum(V[j][k] * V[j][k] for k in range(i)) for j in range(d)), reverse=True)
+                    if len(res) > 1 and res[0] - res[1] < 1e-9 and res[0] != res[1]: tied = True
                 if tied: c["_pca_tied"] = True; break
                 for j in range(d):
                     ok = exact(V[j][i], MV[j][i]) if not small else abs(V[j][i] - float(MV[j][i])) <= 1e-10
